@@ -3,6 +3,7 @@ package main
 import (
 	"fmt"
 	"reflect"
+	"strings"
 	"sync/atomic"
 
 	"github.com/formancehq/ledger/internal/engine/command"
@@ -82,6 +83,10 @@ func c08() int {
 		}
 	})
 
+	// text outside the language: a well-formed program with one fragment that no rule of the grammar accepts, inserted at
+	// every gap between tokens, must be refused at compile time (never run as if the fragment were not there)
+	noiseCases := c08Noise(rep, sp)
+
 	// odd programs (typed or not): the reference decides accept / reject
 	odd := nsgen.OddPrograms(rep.Thorough())
 	var oddCases int64
@@ -157,6 +162,7 @@ func c08() int {
 	cov["ambiguous_cases_accepted_either_way"] = int(ambiguous)
 	cov["reference_declined"] = int(skipped)
 	cov["odd_cases"] = int(oddCases)
+	cov["noise_texts"] = int(noiseCases)
 	cov["ill_typed_variants"] = int(mutants)
 	cov["ill_typed_rejected"] = int(mutantRejected)
 	cov["cache_runs"] = cacheRuns
@@ -322,4 +328,53 @@ func c08Sharing(rep *evid.Reporter) int {
 		}
 	})
 	return int(runs)
+}
+
+// c08Noise: see the call site. Fragments are separated by blanks, so they can only be tokens of their own.
+func c08Noise(rep *evid.Reporter, sp *nsgen.Space) int64 {
+	fragments := []string{".", ";", ",", "#", "'", "`", "!", "?", "~", "^", "&", "|", "<", ">", ":", "\\", "@", "$", "foo", "Send", "é", "\"a.b\"", "'x'", "/", "%%"}
+	// base programs: the first program of every block plus a few more of each
+	var bases []*nsgen.Program
+	off := 0
+	for _, b := range sp.Blocks {
+		for _, k := range []int{0, 1, b.Size() / 2, b.Size() - 1} {
+			if k >= 0 && k < b.Size() {
+				bases = append(bases, sp.Program(off+k))
+			}
+		}
+		off += b.Size()
+	}
+	var n int64
+	evid.ParallelFor(len(bases), workers(), func(w, bi int) {
+		text := bases[bi].Text()
+		if nsrun.Compile(compiler.Compile, text).Fail != nil {
+			return // not a well-formed base
+		}
+		var gaps []int
+		gaps = append(gaps, 0)
+		inStr := false
+		for i := 0; i < len(text); i++ {
+			if text[i] == '"' {
+				inStr = !inStr
+			}
+			if !inStr && (text[i] == ' ' || text[i] == '\n') {
+				gaps = append(gaps, i+1)
+			}
+		}
+		gaps = append(gaps, len(text))
+		for _, g := range gaps {
+			for _, f := range fragments {
+				frag := strings.ReplaceAll(f, "%%", "%")
+				mutated := text[:g] + " " + frag + " " + text[g:]
+				atomic.AddInt64(&n, 1)
+				c := nsrun.Compile(compiler.Compile, mutated)
+				if c.Fail == nil {
+					rep.Violation("noise-accepted:"+frag, fmt.Sprintf("text that is not Numscript compiles (fragment %q inserted at offset %d): %q", frag, g, mutated), map[string]interface{}{"engine": "nsgen", "text": mutated, "input": map[string]interface{}{}})
+				} else if c.Fail.Class == nsgen.ClsPanic {
+					rep.Violation("noise-panic:"+frag, fmt.Sprintf("compiling %q panics: %s", mutated, c.Fail.Panic), map[string]interface{}{"engine": "nsgen", "text": mutated, "input": map[string]interface{}{}})
+				}
+			}
+		}
+	})
+	return n
 }
